@@ -403,9 +403,13 @@ impl Parser<'_, '_> {
             recursive_update_ctxobj(self.ctx, &inner)?;
         }
         if inner.consp() {
+            // Only a symbol is looked up while reading: a head that is itself a
+            // form must not be run before the program is.
             let name = inner.car()?;
-            let ctxobj = eval(self.ctx, &name).ok();
-            inner.with_ctxobj(ctxobj);
+            if name.symbolp() {
+                let ctxobj = eval(self.ctx, &name).ok();
+                inner.with_ctxobj(ctxobj);
+            }
         }
         Ok(inner)
     }
